@@ -90,6 +90,51 @@ def unique_fill(model: Model, M: RuleResult):
         M.bad(g, skips[0], "setparams must install every (name, value) pair: a conditional skip leaves the old tensor in place without any error")
 
 
+def no_escape_of_current_params(model: Model, A: RuleResult):
+    """PureFunction decides whether tensors have to be (re)installed by comparing the new list with its own record of the currently
+    installed ones (`_check_identical_objs(new, self.<record>)`).  That record must be private: if a method hands the list itself
+    out, or keeps a list it was given, a holder that changes an element in place (`_Jac` keeps objparams() as an attribute and
+    uselinopparams() substitutes `objparams[i]`) changes the record too, the new tensors compare 'identical', are never installed,
+    and the function is silently evaluated on the old tensors (gradients w.r.t. object-held tensors are lost)."""
+    cls = model.cls(PF, "PureFunction")
+    so = cls.methods.get("set_objparams")
+    if so is None:
+        raise AnalysisError("SUB-A: PureFunction.set_objparams vanished")
+    records = set()
+    for c in own_nodes(so.node):
+        if isinstance(c, ast.Call) and ast.unparse(c.func).split(".")[-1] == "_check_identical_objs":
+            for a in c.args:
+                if isinstance(a, ast.Attribute) and isinstance(a.value, ast.Name) and a.value.id == so.params()[0]:
+                    records.add(a.attr)
+    if not records:
+        raise AnalysisError("SUB-A: the record of the installed parameters (second operand of _check_identical_objs) was not found")
+    fresh = ("list", "tuple", "copy.copy", "copy")
+    n = 0
+    for c in [cls] + [k for k in model.all_classes() if k is not cls and cls in k.mro()]:
+        for m in c.methods.values():
+            me = m.params()[0] if m.params() else None
+            params = set(m.params()[1:])
+            for st in own_nodes(m.node):
+                if isinstance(st, ast.Return) and isinstance(st.value, ast.Attribute) and isinstance(st.value.value, ast.Name) \
+                        and st.value.value.id == me and st.value.attr in records:
+                    n += 1
+                    A.bad(m, st, "%s.%s returns self.%s itself: a caller that stores the list and replaces an element in place changes this object's record of "
+                          "the installed tensors, so the next substitution is judged 'identical' and skipped; return a copy" % (c.name, m.name, st.value.attr))
+                elif isinstance(st, ast.Return) and st.value is not None and any(isinstance(x, ast.Attribute) and x.attr in records for x in ast.walk(st.value)):
+                    n += 1
+                    A.ok(m.fq, "`%s` hands out a copy / derived value of the record" % norm_stmt(st, 60))
+                if isinstance(st, ast.Assign) and any(isinstance(t, ast.Attribute) and isinstance(t.value, ast.Name) and t.value.id == me and t.attr in records for t in st.targets):
+                    n += 1
+                    v = st.value
+                    if isinstance(v, ast.Name) and v.id in params:
+                        A.bad(m, st, "%s.%s keeps the caller's list as its record of the installed tensors (`%s`): the caller can change it in place; "
+                              "store a copy" % (c.name, m.name, norm_stmt(st, 60)))
+                    else:
+                        A.ok(m.fq, "record assigned from `%s`" % ast.unparse(v)[:60])
+    if n == 0:
+        raise AnalysisError("SUB-A: no accessor / assignment of the record found")
+
+
 def rules(model: Model, prop: str, tier: str = "quick") -> List[RuleResult]:
     from ..props import c09, c10
     G = RuleResult(prop, "SUB-G", "substitution layer: sibling wrappers delegate getter and setter in the same (all-names) space", min_instances=4)
@@ -103,4 +148,6 @@ def rules(model: Model, prop: str, tier: str = "quick") -> List[RuleResult]:
     c10.setparams_structure(model, N)
     unique_key_identity(model, K)
     unique_fill(model, M)
-    return [G, I, N, K, M]
+    A = RuleResult(prop, "SUB-A", "substitution layer: the pure function's record of the installed tensors never escapes (accessors return copies)", min_instances=3)
+    no_escape_of_current_params(model, A)
+    return [G, I, N, K, M, A]
